@@ -2,6 +2,7 @@ import PfVerif.Proofs.C15Adjust
 import PfVerif.Proofs.C15Dig
 import PfVerif.Proofs.C15Fix1d
 import PfVerif.Proofs.C15Last
+import PfVerif.Proofs.C15Mono
 /-! # C15 — elevation conditioning makes elevation non-increasing downstream
 
 All theorems quantify over every network `ds`, every downstream-first order `seq` (`Topo`, what C03
@@ -74,30 +75,33 @@ end compose
 
 /-! ## `dem_adjust` = `adjustWith` instantiated with the model of `_adjust_elevation`
 
-Proved for the real 1-D fixer `adjust1d` (all profiles): `adjust1d_length` (length kept),
-`adjust1d_range` (range kept), `adjust1d_id` (identity on non-increasing profiles), `adjust1d_last`
-(the last, most downstream, value is kept).
-NOT proved (second-stage target `fix1d_ok`): `MonoOut adjust1d` (the output profile is
-non-increasing: needs the hump/pit shape invariant through the dig / fill / dig-and-fill branches).
-It stays a hypothesis of the two `_partial` theorems; the harness validates it (as a *test*) on every
-profile `_adjust_elevation` receives during the runs and on the exhaustive universe of short profiles.
+All five components of the contract `Fix1D` are proved for the real 1-D fixer `adjust1d`, for
+every profile: `adjust1d_length` (length kept), `adjust1d_range` (range kept), `adjust1d_id` (identity
+on non-increasing profiles), `adjust1d_last` (the last, most downstream, value is kept) and
+`adjust1d_mono` (the output profile is non-increasing; `Proofs/C15Mono.lean`: scan invariant "finished
+prefix non-increasing up to `imin`, open hump non-decreasing up to `imax` and non-increasing after it",
+each of the three candidate modifications dig / fill / dig & fill yields a non-increasing prefix).
+Hence the theorems below carry no hypothesis on the fixer. -/
+/-- **`fix1d_ok`**: the model of `_adjust_elevation` satisfies the whole contract `Fix1D`, for every profile -/
+theorem fix1d_ok :
+    LenKept adjust1d ∧ MonoOut adjust1d ∧ LastKept adjust1d ∧ IdOnNonInc adjust1d ∧ RangeKept adjust1d :=
+  ⟨adjust1d_length, adjust1d_mono, adjust1d_last, adjust1d_id, adjust1d_range⟩
 
-Full statement aimed at:
-`theorem dem_adjust_monotone : Topo ds seq → … → ∀ i ∈ seq, (adjustElevation ds seq elev)[ds[i]!]! ≤ (adjustElevation ds seq elev)[i]!` -/
-/-- the four proved components of `Fix1D` for the model of `_adjust_elevation` -/
-theorem fix1d_proved_part :
-    LenKept adjust1d ∧ RangeKept adjust1d ∧ IdOnNonInc adjust1d ∧ LastKept adjust1d :=
-  ⟨adjust1d_length, adjust1d_range, adjust1d_id, adjust1d_last⟩
+/-- **the output of `_adjust_elevation` is non-increasing**, in list form: every element is at most
+its predecessor -/
+theorem adjust1d_nonincreasing (v : List Int) (j : Nat) (hj : j + 1 < v.length) :
+    (adjust1d v)[j+1]! ≤ (adjust1d v)[j]! := adjust1d_mono v j hj
 
 section real
 variable (ds : Array Nat) (seq : List Nat) (elev : Array Int)
   (htopo : Topo ds seq) (hbd : ∀ i ∈ seq, i < ds.size) (hb : ∀ i ∈ seq, i < elev.size)
 include htopo hbd hb
 
-/-- **non-increasing downstream** (partial: the unproved component of `Fix1D` is a hypothesis) -/
-theorem dem_adjust_monotone_partial (hmono : MonoOut adjust1d) :
+/-- **non-increasing downstream** (full strength): after `dem_adjust` no cell of the network is lower
+than its downstream cell -/
+theorem dem_adjust_monotone :
     ∀ i ∈ seq, (adjustElevation ds seq elev)[ds[i]!]! ≤ (adjustElevation ds seq elev)[i]! :=
-  streamline_compose adjust1d ds seq elev htopo hbd hb adjust1d_length hmono adjust1d_last
+  streamline_compose adjust1d ds seq elev htopo hbd hb adjust1d_length adjust1d_mono adjust1d_last
 
 /-- **only cells of the network are touched** (full strength) -/
 theorem dem_adjust_only_network : ∀ c, c ∉ seq → (adjustElevation ds seq elev)[c]! = elev[c]! :=
@@ -113,10 +117,10 @@ theorem dem_adjust_range_kept (lo hi : Int) (hin : ∀ c ∈ seq, lo ≤ elev[c]
     ∀ c ∈ seq, lo ≤ (adjustElevation ds seq elev)[c]! ∧ (adjustElevation ds seq elev)[c]! ≤ hi :=
   range_kept adjust1d ds seq elev htopo hbd hb adjust1d_length adjust1d_range lo hi hin
 
-/-- **idempotent** (partial: same hypothesis as `dem_adjust_monotone_partial`) -/
-theorem dem_adjust_idempotent_partial (hmono : MonoOut adjust1d) :
+/-- **idempotent** (full strength) -/
+theorem dem_adjust_idempotent :
     adjustElevation ds seq (adjustElevation ds seq elev) = adjustElevation ds seq elev :=
-  idempotent adjust1d ds seq elev htopo hbd hb adjust1d_length hmono adjust1d_last adjust1d_id
+  idempotent adjust1d ds seq elev htopo hbd hb adjust1d_length adjust1d_mono adjust1d_last adjust1d_id
 
 end real
 
